@@ -21,6 +21,8 @@ OneVal == CHOOSE v \in StoreVals : TRUE
 \* limit and one beyond
 Batches == {<<>>} \cup {<<BOp("put", k, v)>> : k \in KeyArgs, v \in ValArgs}
            \cup {<<BOp("put", k1, OneVal), BOp(t, k2, OneVal)>> : k1 \in StoreKeys, k2 \in KeyArgs, t \in {"put", "del"}}
+MergeBatches == {<<BOp("merge", k, OneVal)>> : k \in StoreKeys}
+                \cup {<<BOp("del", k1, OneVal), BOp("merge", k2, OneVal)>> : k1 \in StoreKeys, k2 \in StoreKeys}
 ValidBatches == {b \in Batches : \A i \in 1..Len(b) : OpValid(b[i])}
 
 Requests ==
@@ -45,7 +47,8 @@ Requests ==
      \cup (IF WithApply
            THEN {[R("apply_put") EXCEPT !.k = k, !.v = v] : k \in StoreKeys, v \in StoreVals}
                 \cup {[R("apply_del") EXCEPT !.k = k] : k \in StoreKeys}
-                \cup {[R("apply_batch") EXCEPT !.ops = b] : b \in ValidBatches \ {<<>>}}
+                \cup {[R(op) EXCEPT !.ops = b] : op \in {"apply_batch", "apply_entries"}, b \in (ValidBatches \ {<<>>}) \cup MergeBatches}
+                \cup {[R("apply_merge") EXCEPT !.k = k, !.v = v] : k \in StoreKeys, v \in StoreVals}
                 \cup {[R("setro") EXCEPT !.ro = b] : b \in BOOLEAN} \cup {R("stoprepl")}
            ELSE {})
 
